@@ -58,6 +58,17 @@ CLAIMED = {
    note="Trusted: SysVABI.tla/TraceABI.tla; x86-64 only (the host).",
    technique="TLC-derived signatures replayed through an assembly trampoline; recorded Call/Obs/Ret traces validated by TraceABI.tla",
    design="DESIGN.md §4 C06, A.4"),
+ "C08": dict(level="model_checking",
+   text="TLC enumerates struct/union declarations of spec/CLayout.tla (scalar, array, bit-field incl. unnamed/zero-width, nested and anonymous "
+        "members; flat to 3 members exhaustively, nested and long ones by simulation) and computes size, alignment, every leaf's offset/bit "
+        "position/width/signedness and the psABI eightbyte classes. Each declaration is compiled by c2m (interpreter; -eg -O2 in thorough) "
+        "and gcc into a unit that prints sizeof/_Alignof/offsetof and bit-field byte dumps; VIOLATION iff spec == gcc and c2m differs. "
+        "By-value passing: for every distinct (classes, size, leaf signature) shape caller/callee pairs with one side compiled by c2m and the "
+        "other by gcc, both directions, seven argument positions and as return value; uninitialised static objects must get sizeof bytes.",
+   note="Trusted: CLayout.tla as transcription of the psABI layout/classification rules, with gcc as second oracle (two-oracle rule: "
+        "spec != gcc is counted as SPEC-DISAGREES, never a violation); x86-64 only.",
+   technique="TLA+ psABI layout/classification spec enumerated by TLC; each declaration compiled by c2m and gcc and compared; cross-compiler calls",
+   design="DESIGN.md §4 C08, A.4"),
  "C15": dict(level="model_checking",
    text="TLC evaluates Verdict() of spec/MIRCheck.tla, written from MIR.md and not from insn_descs, on the complete table: every documented "
         "opcode x operand position x 46 operand kinds, arity, ret vs result types, call/inline/jcall vs 8 prototypes incl. block args and "
